@@ -50,6 +50,15 @@ def eid_before(ex, p, e):
 
 
 @REG.specfunc()
+def obj_before(ex, p, e):
+    """store object the entity handle e denotes in the PRE-state of the call"""
+    from sidecar_a_common import obj
+    se = ex.lookup(p, "__specenv__")
+    oldp = se.old if se.old is not None else se.p
+    return VInt(obj(ex, oldp, e).t)
+
+
+@REG.specfunc()
 def nth_name(ex, p, g, i):
     return VStr(p.sigma["ord"][g.t][i.t])
 
@@ -105,13 +114,16 @@ REG.contract(
 
 # ---- verified: id-or-name dispatch -------------------------------------------------------------------------------------------------
 REG.contract(
-    "nixio.hdf5.h5group.H5Group.get_by_id_or_name", props=["C03", "C04"],
+    "nixio.hdf5.h5group.H5Group.get_by_id_or_name", props=["C03", "C04", "C20"],
     params=dict(self=Obj("H5Group"), id_or_name=Str), result=Obj("H5Group"),
-    let="g = gid(self); k = idx_of_id(g, id_or_name); byid = uuid_text(id_or_name) and g != 0 and k >= 0",
-    raises={"KeyError": ("(not byid) and (g == 0 or link(g, id_or_name) == 0)", "prop")},
-    ensures=[("by.id", "byid implies gid(result) == link(g, nth_name(g, k))", "prop"),
-             # every legal name retrieves the entity linked under it - also a name that looks like an id
-             ("by.name", "(not byid) implies gid(result) == link(g, id_or_name)", "prop")],
+    let="g = gid(self); k = idx_of_id(g, id_or_name); byname = g != 0 and link(g, id_or_name) != 0; "
+        "byid = (not byname) and uuid_text(id_or_name) and g != 0 and k >= 0",
+    raises={"KeyError": ("(not byid) and (not byname)", "prop")},
+    ensures=[
+        # every legal name retrieves exactly the entity linked under it - also a name that looks like an id, and also when
+        # another member carries that text as its id (kept-id copies of an entity that is named after its id)
+        ("by.name", "byname implies gid(result) == link(g, id_or_name)", "prop"),
+        ("by.id", "byid implies gid(result) == link(g, nth_name(g, k))", "prop")],
     prop_clauses=["by.id", "by.name", "raises-iff:KeyError", "raises-only:KeyError"])
 
 
@@ -144,7 +156,8 @@ N = "ite_(%s == 0, 0, len(order(%s)))" % (G, G)
 I = "intval(item)"
 POS = "ite_({0} < 0, {0} + {1}, {0})".format(I, N)
 K = "idx_of_id(%s, as_str(item))" % G
-BYID = "(uuid_text(as_str(item)) and %s != 0 and %s >= 0)" % (G, K)
+BYNAME = "(%s != 0 and link(%s, as_str(item)) != 0)" % (G, G)
+BYID = "((not %s) and uuid_text(as_str(item)) and %s != 0 and %s >= 0)" % (BYNAME, G, K)
 
 REG.contract(
     "nixio.container.Container.__len__#c03", props=["C03"],
@@ -157,13 +170,13 @@ REG.contract(
     requires=CONT_OK + ["is_int(item) or is_str(item)"],
     modifies=["heap._h5group@new", "heap._parent@new", "heap._file@new"],
     raises={"IndexError": ("is_intlike(item) and not (-{1} <= {0} and {0} < {1})".format(I, N), "prop"),
-            "KeyError": ("is_str(item) and (not %s) and (%s == 0 or link(%s, as_str(item)) == 0)" % (BYID, G, G), "prop")},
+            "KeyError": ("is_str(item) and (not %s) and (not %s)" % (BYID, BYNAME), "prop")},
     ensures=[
         # positional indexing follows creation order; negative indices count from the end
         ("get.pos", "is_intlike(item) implies obj(result) == link({0}, nth_name({0}, {1}))".format(G, POS), "prop"),
         ("get.id", "(is_str(item) and %s) implies obj(result) == link(%s, nth_name(%s, %s))" % (BYID, G, G, K), "prop"),
         # a legal name retrieves exactly the entity linked under it (also a name that looks like an id)
-        ("get.name", "(is_str(item) and not %s) implies obj(result) == link(%s, as_str(item))" % (BYID, G), "prop")],
+        ("get.name", "(is_str(item) and %s) implies obj(result) == link(%s, as_str(item))" % (BYNAME, G), "prop")],
     prop_clauses=["get.pos", "get.id", "get.name", "raises-iff:IndexError", "raises-only:IndexError", "raises-iff:KeyError",
                   "raises-only:KeyError"])
 
@@ -225,16 +238,16 @@ REG.contract(
 # ---- C04: what a delete hands to the sweeper ----------------------------------------------------------------------------------------------
 REG.contract(
     "nixio.hdf5.h5group.H5Group.delete_all", assumed=True, props=[],
-    params=dict(self=Obj("H5Group"), eid=SeqOf(Dyn)), modifies=["link", "ord"],
+    params=dict(self=Obj("H5Group"), eid=SeqOf(Dyn), targets=Opt(SeqOf(Int))), defaults=dict(targets=VNone()), modifies=["link", "ord"],
     note="ASSUMED (callback traversal with mutation during h5py visititems): afterwards no group below self links an "
-         "object whose entity_id is in eid; every other link and the relative creation order of the remaining links is "
+         "object whose entity_id is in eid (and which is one of `targets`, when given); every other link and the relative creation order of the remaining links is "
          "unchanged; objects themselves (attributes, data) are untouched")
 REG.contract(
     "nixio.hdf5.h5group.H5Group.delete", assumed=True, props=[],
     params=dict(self=Obj("H5Group"), id_or_name=Str, delete_if_empty=Bool), defaults=dict(delete_if_empty=VBool(True)),
     modifies=["link", "ord"],
-    let="g = gid(self); byid = uuid_text(id_or_name) and g != 0 and idx_of_id(g, id_or_name) >= 0; "
-        "k = ite_(byid, nth_name(g, idx_of_id(g, id_or_name)), id_or_name)",
+    let="g = gid(self); byid = (g == 0 or link(g, id_or_name) == 0) and uuid_text(id_or_name) and g != 0 and "
+        "idx_of_id(g, id_or_name) >= 0; k = ite_(byid, nth_name(g, idx_of_id(g, id_or_name)), id_or_name)",
     raises={"KeyError": ("uuid_text(id_or_name) and idx_of_id(gid(self), id_or_name) < 0 and link(gid(self), id_or_name) == 0",
                          "helper"),
             "ValueError": ("False", "helper")},
@@ -254,9 +267,12 @@ REG.contract(
     raises={"TypeError": ("not inst_of(item, field(self, '_itemclass'))", "prop")},
     # deleting a plain entity sweeps exactly its own id, starting from the file root
     ensures=[("del.ids", "len(arg_of('delete_all', 'eid')) == 1 and arg_of('delete_all', 'eid')[0] == %s" % ITEM_ID, "prop"),
+             # ... and only links to this very object: a copy made with kept ids carries the same id
+             ("del.target", "len(arg_of('delete_all', 'targets')) == 1 and "
+                            "arg_of('delete_all', 'targets')[0] == obj_before(item)", "prop"),
              ("del.root", "arg_of('delete_all', 'self') == %s" % FILE_ROOT, "prop"),
              ("del.once", "n_calls('delete_all') == 1 and n_calls('H5Group.delete') == 0", "prop")],
-    prop_clauses=["del.ids", "del.root", "del.once", "raises-iff:TypeError", "raises-only:TypeError"])
+    prop_clauses=["del.ids", "del.target", "del.root", "del.once", "raises-iff:TypeError", "raises-only:TypeError"])
 
 SUB = "result_of('find_%s')"
 for _cls, _kind in (("SectionContainer", "sections"), ("SourceContainer", "sources")):
@@ -266,11 +282,15 @@ for _cls, _kind in (("SectionContainer", "sections"), ("SourceContainer", "sourc
            # the whole subtree: one id per entity the tree search returns, in order
            ("del.sub", "all(arg_of('delete_all', 'eid')[j] == eid_before(%s[j]) for j in range(len(%s)))"
                        % (F, F), "prop"),
+           ("del.targets", "len(arg_of('delete_all', 'targets')) == len(%s) + %d and "
+                           "all(arg_of('delete_all', 'targets')[j] == obj_before(%s[j]) for j in range(len(%s)))"
+                           % (F, _extra, F, F), "prop"),
            ("del.start", "arg_of('find_%s', 'self') == item and n_calls('find_%s') == 1" % (_kind, _kind), "prop"),
            ("del.root", "arg_of('delete_all', 'self') == %s" % FILE_ROOT, "prop"),
            ("del.once", "n_calls('delete_all') == 1", "prop")]
     if _extra:
-        ens.append(("del.self", "arg_of('delete_all', 'eid')[len(%s)] == %s" % (F, ITEM_ID), "prop"))
+        ens.append(("del.self", "arg_of('delete_all', 'eid')[len(%s)] == %s and "
+                                "arg_of('delete_all', 'targets')[len(%s)] == obj_before(item)" % (F, ITEM_ID, F), "prop"))
     REG.contract(
         "nixio.container.%s.__delitem__#entity" % _cls, props=["C04"],
         params=dict(self=Obj(_cls), item=Obj("Section" if _kind == "sections" else "Source")),
@@ -337,10 +357,32 @@ def in_ids(ex, p, ids, o):
     return VBool(z3.Contains(ids.t, z3.Unit(_eid(oldp, o.t))))
 
 
+REG.contract(
+    "nixio.hdf5.h5group.H5Group.h5obj", assumed=True, props=[],
+    params=dict(self=Obj("H5Group")), result=Int, ensures=["result == gid(self)"],
+    note="property; `return self.group`. ASSUMED MODEL: an h5py object is represented by the identity of the HDF5 object it "
+         "denotes - h5py compares (and hashes) Group / Dataset objects by (file number, object address), so `a == b` / `a in "
+         "list` on h5py objects is identity of store objects")
+
+
+@REG.specfunc()
+def is_target(ex, p, targets, o):
+    """targets is None (no restriction) or a list holding the store object o"""
+    t = ex.deref(p, targets)
+    if isinstance(t, VNone):
+        return VBool(z3.BoolVal(True))
+    if isinstance(t, VTuple):
+        t = V.tuple_to_seq(t, Int)
+    if isinstance(t, VSeq):
+        return VBool(z3.Contains(t.t, z3.Unit(o.t)))
+    b = box(t)
+    return VBool(z3.Or(Val.is_VNone(b), z3.And(Val.is_VIntSeq(b), z3.Contains(Val.iseq(b), z3.Unit(o.t)))))
+
+
 SW_G = "h5obj_id(obj)"
 REG.contract(
     "nixio.hdf5.h5group.H5Group.delete_all.<locals>.delete_by_id", props=["C04", "C02"],
-    params=dict(_=Dyn, obj=OpaqueOf("h5obj"), self=Obj("H5Group"), eid=SeqOf(Dyn)),
+    params=dict(_=Dyn, obj=OpaqueOf("h5obj"), self=Obj("H5Group"), eid=SeqOf(Dyn), targets=Opt(SeqOf(Int))),
     # store well-formedness of the visited group (assumed HDF5 invariant): its creation-order list holds linked,
     # pairwise different names
     requires=["is_h5group(obj) implies (%s != 0 and linked_distinct(%s))" % (SW_G, SW_G)],
@@ -348,14 +390,16 @@ REG.contract(
     let="G = %s; NM = order(G)" % SW_G,
     raises={"KeyError": ("False", "helper")},
     ensures=[
-        # every member of the visited group whose id is to be deleted is unlinked - all of them, not just the first -
-        ("sweep.all", "is_h5group(obj) implies all(link(G, NM[j]) == ite_(in_ids(eid, old(link(G, NM[j]))), 0, old(link(G, NM[j]))) "
-                      "for j in range(len(NM)))", "prop"),
+        # every member of the visited group whose id is to be deleted - and which IS one of the objects to be deleted, not a
+        # kept-id copy of one - is unlinked: all of them, not just the first -
+        ("sweep.all", "is_h5group(obj) implies all(link(G, NM[j]) == ite_(in_ids(eid, old(link(G, NM[j]))) and "
+                      "is_target(targets, old(link(G, NM[j]))), 0, old(link(G, NM[j]))) for j in range(len(NM)))", "prop"),
         # and nothing else anywhere is linked or unlinked
         ("sweep.frame", "only_changed_at('link', G) and only_changed_at('ord', G)", "prop"),
         ("sweep.skip", "(not is_h5group(obj)) implies (unchanged('link') and unchanged('ord'))", "prop")],
     loops={0: dict(var="k", modifies=["link", "ord"],
-                   inv=["all(link(G, NM[j]) == ite_(in_ids(eid, old(link(G, NM[j]))), 0, old(link(G, NM[j]))) for j in range(k))",
+                   inv=["all(link(G, NM[j]) == ite_(in_ids(eid, old(link(G, NM[j]))) and is_target(targets, old(link(G, NM[j]))), 0, "
+                        "old(link(G, NM[j]))) for j in range(k))",
                         "all(link(G, NM[j]) == old(link(G, NM[j])) for j in range(k, len(NM)))",
                         "only_changed_at('link', G) and only_changed_at('ord', G)"])},
     prop_clauses=["sweep.all", "sweep.frame", "sweep.skip"])
